@@ -54,11 +54,20 @@ NANBITS = {'f4': 0x7fc00000, 'f8': 0x7ff8000000000000}
 # oracles
 # ------------------------------------------------------------------------------------------------
 
+def pc_matrix(c):
+    a = math.radians(c.get('rot') or 0.0)
+    return [[math.cos(a), -math.sin(a)], [math.sin(a), math.cos(a)]]
+
+
 def make_header(c):
-    return dict(CTYPE1='RA---' + c['proj'], CTYPE2='DEC--' + c['proj'],
-                CRVAL1=c['crval'][0], CRVAL2=c['crval'][1],
-                CDELT1=c['cdelt'][0], CDELT2=c['cdelt'][1],
-                CRPIX1=c['crpix'][0], CRPIX2=c['crpix'][1])
+    h = dict(CTYPE1='RA---' + c['proj'], CTYPE2='DEC--' + c['proj'],
+             CRVAL1=c['crval'][0], CRVAL2=c['crval'][1],
+             CDELT1=c['cdelt'][0], CDELT2=c['cdelt'][1],
+             CRPIX1=c['crpix'][0], CRPIX2=c['crpix'][1])
+    if c.get('rot'):
+        pc = pc_matrix(c)
+        h.update(PC1_1=pc[0][0], PC1_2=pc[0][1], PC2_1=pc[1][0], PC2_2=pc[1][1])
+    return h
 
 
 def make_wcs(c):
@@ -70,10 +79,12 @@ def make_wcs(c):
 
 def zenithal(c, x, y):
     """independent deprojection of FITS pixel coordinates (x, y) (1-based) for the five zenithal
-    projections, no rotation, LONPOLE = 180 (CRVAL2 < 90).  Returns ra, dec in degrees."""
+    projections, PC rotation, LONPOLE = 180 (CRVAL2 < 90).  Returns ra, dec in degrees."""
     d2r = math.pi / 180
-    u = c['cdelt'][0] * (x - c['crpix'][0])
-    v = c['cdelt'][1] * (y - c['crpix'][1])
+    pc = pc_matrix(c)
+    dx, dy = x - c['crpix'][0], y - c['crpix'][1]
+    u = c['cdelt'][0] * (pc[0][0] * dx + pc[0][1] * dy)
+    v = c['cdelt'][1] * (pc[1][0] * dx + pc[1][1] * dy)
     r = np.hypot(u, v)
     phi = np.arctan2(u, -v)
     rr = r * d2r
@@ -135,6 +146,10 @@ def pole_bit(pixset, depth):
 
 class Skip(Exception):
     pass
+
+
+class Mutated(Exception):
+    """the implementation changed something the caller owns"""
 
 
 def image_oracle(ctx, c, region=None):
@@ -210,21 +225,40 @@ def run_image_impl(ctx, c, orc):
     from AegeanTools import MIMAS
     data = gen_data(c)
     before = bits(data.copy(), c['dtype'])
+    reg_before = (orc['region'].maxdepth, pixel_set(orc['region']).tobytes())
     if c['entry'] == 'plane':
         assert len(c['shape']) == 2
+        lay = c.get('layout') or 'native'
+        if lay == 'bigendian':
+            data = data.astype('>' + c['dtype'])
+        elif lay == 'fortran':
+            data = np.asfortranarray(data)
+        elif lay == 'view':          # a non-contiguous window of a larger caller-owned array
+            big = np.full((c['H'] + 3, 2 * c['W'] + 1), 7.0, dtype=data.dtype)
+            win = big[2:2 + c['H'], 1:1 + 2 * c['W']:2]
+            win[...] = data
+            data = win
+        hdr_before = orc['wcs'].to_header_string()
         with warnings.catch_warnings():
             warnings.simplefilter('ignore')
             out = MIMAS.mask_plane(data, orc['wcs'], orc['region'], c['negate'])
+        if orc['wcs'].to_header_string() != hdr_before:
+            raise Mutated('mask_plane modified the WCS object it was given')
+        if (orc['region'].maxdepth, pixel_set(orc['region']).tobytes()) != reg_before:
+            raise Mutated('mask_plane modified the Region it was given')
+        if lay == 'view' and not (np.all(big[:2] == 7.0) and np.all(big[2:2 + c['H'], 0::2] == 7.0)):
+            raise Mutated('mask_plane wrote outside the array view it was given')
         return before, bits(out, c['dtype']), list(out.shape)
     from astropy.io import fits
     d = ctx.tmpdir()
-    tag = hashlib.sha1(json.dumps(c, sort_keys=True).encode()).hexdigest()[:12]
+    tag = c.get('fname') or hashlib.sha1(json.dumps(c, sort_keys=True).encode()).hexdigest()[:12]
     infile, outfile, regfile = (os.path.join(d, f'{tag}_{s}') for s in ('in.fits', 'out.fits', 'reg.mim'))
     hdu = fits.PrimaryHDU(data)
     for k, v in make_header(c).items():
         hdu.header[k] = v
     hdu.writeto(infile, overwrite=True)
     orc['region'].save(regfile)
+    sums = [hashlib.sha1(open(f, 'rb').read()).hexdigest() for f in (infile, regfile)]
     try:
         with warnings.catch_warnings():
             warnings.simplefilter('ignore')
@@ -235,10 +269,13 @@ def run_image_impl(ctx, c, orc):
             else:
                 MIMAS.mask_file(regfile, infile, outfile, negate=c['negate'])
             out = fits.getdata(outfile)
+        if sums != [hashlib.sha1(open(f, 'rb').read()).hexdigest() for f in (infile, regfile)]:
+            raise Mutated('mask_file modified its input image or region file')
     finally:
-        for f in (infile, outfile, regfile):
-            if os.path.exists(f):
-                os.remove(f)
+        if not c.get('fname'):       # histories keep rewriting the same three file names
+            for f in (infile, outfile, regfile):
+                if os.path.exists(f):
+                    os.remove(f)
     return before, bits(out, c['dtype']), list(out.shape)
 
 
@@ -351,12 +388,20 @@ def lean_file_line(c, orc, before, after):
 
 
 def eval_images(ctx, cases, record=True, use_lean=True, shrink=True):
-    """run a list of image cases; returns list of outcomes (None | 'spec' | 'corr' | 'skip')"""
+    """run a list of image cases IN ORDER in this process; returns list of outcomes
+    (None | 'spec' | 'corr' | 'skip')"""
     todo, lines = [], []
     outcomes = [None] * len(cases)
+    shared = {}
     for n, c in enumerate(cases):
         try:
-            orc = image_oracle(ctx, c)
+            reg = None
+            if c.get('fname'):       # a history: one Region object serves all its steps
+                rk = json.dumps(c['region'], sort_keys=True)
+                if rk not in shared:
+                    shared[rk] = build_region(c['region'])
+                reg = shared[rk]
+            orc = image_oracle(ctx, c, region=reg)
         except Skip:
             ctx.count('skipped-boundary-ambiguous')
             outcomes[n] = 'skip'
@@ -367,7 +412,8 @@ def eval_images(ctx, cases, record=True, use_lean=True, shrink=True):
             outcomes[n] = 'spec'
             if record:
                 ctx.fail('spec', c, f"{c['entry']} raised {type(e).__name__}: {str(e)[:200]}",
-                         dict(site='mask_plane' if c['entry'] == 'plane' else 'mask_file', what='raises',
+                         dict(site='mask_plane' if c['entry'] == 'plane' else 'mask_file',
+                              what='argument-mutated' if isinstance(e, Mutated) else 'raises',
                               ndim=len(c['shape']), error=type(e).__name__))
                 ctx.case(dict(c, outcome='raised'))
             continue
@@ -487,6 +533,130 @@ def gen_image(rng, quick, small=False):
     return c
 
 
+def gen_history(rng, quick):
+    """a sequence of images masked one after the other in this process, with the same Region object
+    and the same three file names: identical shape / CRVAL / CRPIX / |CDELT| / region, differing in
+    axis direction (all four CDELT sign combinations), rotation, pixel dtype, memory layout, entry
+    point and number of planes.  Every step is judged against its own per-pixel oracle."""
+    proj = rng.choice(PROJS)
+    H, W = rng.randint(5, 18 if quick else 40), rng.randint(5, 24 if quick else 56)
+    if H == W:
+        W += rng.randint(1, 4)
+    cd = round(rng.uniform(0.03, 0.3), 4)
+    cdy = cd if rng.random() < 0.7 else round(cd * rng.choice([0.8, 1.25]), 5)
+    crval = [round(rng.uniform(0, 360), 3), round(rng.uniform(-70, 70), 3)]
+    crpix = [round(W / 2 + rng.uniform(-2, 2), 2), round(H / 2 + rng.uniform(-2, 2), 2)]
+    base = dict(kind='image', proj=proj, H=H, W=W, cdelt=[-cd, cdy], crval=crval, crpix=crpix)
+    w = make_wcs(base)
+    m = min(H, W)
+    circles = []
+    for _ in range(rng.choice([1, 2])):      # off-centre, so mirrored / rotated masks differ
+        ang = rng.uniform(0, 2 * math.pi)
+        off = m * rng.uniform(0.15, 0.3)
+        x, y = crpix[0] + off * math.cos(ang), crpix[1] + off * math.sin(ang)
+        ra, dec = w.wcs_pix2world([[x, y]], 1)[0]
+        circles.append([float(ra), float(dec), float(m * min(cd, cdy) * rng.uniform(0.15, 0.3))])
+    depth = max(3, min(12, int(math.ceil(math.log2(58.63 / (0.6 * min(cd, cdy)))))))
+    base['region'] = dict(depth=depth, circles=circles, polys=[])
+    variants = [(-1, 1, 0.0), (1, -1, 0.0), (1, 1, 0.0), (-1, -1, 0.0),
+                (rng.choice([-1, 1]), rng.choice([-1, 1]), rng.choice([90.0, 180.0, 270.0])),
+                (-1, 1, round(rng.uniform(10, 80), 1))]
+    rng.shuffle(variants)
+    variants.append(variants[0])
+    steps = []
+    for sx, sy, rot in variants:
+        c = dict(base, cdelt=[sx * cd, sy * cdy], rot=rot, negate=rng.random() < 0.5,
+                 dtype=rng.choice(['f4', 'f8']), prenan=rng.random() < 0.2, dseed=rng.randint(0, 2 ** 30),
+                 fname='hist')
+        e = rng.random()
+        if e < 0.45:
+            c['entry'], c['shape'] = 'plane', [H, W]
+            c['layout'] = rng.choice(['native', 'bigendian', 'fortran', 'view'])
+        else:
+            c['entry'] = 'file' if e < 0.92 else 'cli'
+            c['shape'] = rng.choice([[H, W], [H, W], [rng.randint(2, 3), H, W], [1, 1, H, W]])
+        steps.append(c)
+    return dict(kind='history', steps=steps)
+
+
+def standalone_outcome(c):
+    """the outcome of one image case in a FRESH python process (no earlier calls)"""
+    import subprocess
+    import sys
+    code = ("import sys, json; sys.path.insert(0, %r); import common, corr_C10; common.use_repo(); corr_C10.quiet();"
+            "ctx = common.Ctx('C10', 'quick', 0); ctx.driver_ok = False;"
+            "o = corr_C10.eval_images(ctx, [json.loads(sys.stdin.read())], record=False, use_lean=False, shrink=False);"
+            "ctx.cleanup(); print('OUTCOME', o[0])") % os.path.dirname(os.path.abspath(__file__))
+    r = subprocess.run([sys.executable, '-W', 'ignore', '-c', code], input=json.dumps(c), capture_output=True,
+                       text=True, timeout=600)
+    for line in r.stdout.splitlines():
+        if line.startswith('OUTCOME'):
+            return line.split()[1]
+    return 'crash'
+
+
+def eval_history(ctx, hist, record=True):
+    """run the steps in order in this process.  A failing step that passes on its own in a fresh
+    process is reported as history dependence, with the history minimised to a pair of calls."""
+    steps = hist['steps']
+    saved = ctx.failures
+    ctx.failures = []
+    try:
+        outs = eval_images(ctx, steps, record=record, use_lean=True, shrink=False)
+        local = ctx.failures
+    finally:
+        ctx.failures = saved
+    if record:
+        ctx.count('history')
+        ctx.count('history-steps', len(steps))
+    bad = [k for k, o in enumerate(outs) if o in ('spec', 'corr')]
+    if not bad:
+        return None
+    if not record:
+        return outs[bad[0]]
+    k = bad[0]
+    alone = standalone_outcome(steps[k])
+    if alone in ('spec', 'corr'):
+        # fails without any history as well: an ordinary failure of that image
+        ctx.failures.extend(f for f in local if f['case'] is steps[k] or f['case'] == steps[k])
+        if not any(f['case'] == steps[k] for f in local):
+            ctx.failures.extend(local[:1])
+        return outs[k]
+
+    def fails(seq):
+        o = eval_images(ctx, seq, record=False, use_lean=False, shrink=False)
+        return o[-1] == 'spec'
+    seq = steps[:k + 1]
+    for j in range(k - 1, -1, -1):
+        if fails([steps[j], steps[k]]):
+            seq = [steps[j], steps[k]]
+            break
+    # make both calls as plain as they can be while the second still fails
+    for key, val in (('prenan', False), ('layout', 'native'), ('dtype', 'f4')):
+        t = [dict(x, **{key: val}) if key in x else x for x in seq]
+        if fails(t):
+            seq = t
+    t = [dict(x, shape=[x['H'], x['W']]) if x['entry'] != 'plane' else x for x in seq]
+    if fails(t):
+        seq = t
+    ctx.failures = []
+    try:
+        eval_images(ctx, seq, record=True, use_lean=False, shrink=False)
+        got = ctx.failures
+    finally:
+        ctx.failures = saved
+    src = (got or local)[-1 if got else 0]
+    last = seq[-1]
+    ctx.fail('spec', dict(kind='history', steps=seq),
+             f"call {len(seq)} of this sequence of {len(seq)} calls in one process gives a wrong mask, although the "
+             f"same call alone in a fresh process is right (the result depends on the earlier call"
+             + (f": the two images differ only in CDELT {seq[0]['cdelt']} -> {last['cdelt']}, rotation "
+                f"{seq[0].get('rot', 0.0)} -> {last.get('rot', 0.0)}, dtype/layout/entry" if len(seq) == 2 else "")
+             + "). " + src['detail'],
+             dict(src.get('signature') or {}, what='history-dependence'))
+    return 'spec'
+
+
 def one_line_cube(rng):
     """a cube of one-row / one-column images: the plane axis must not be taken for an image axis"""
     c = gen_image(rng, True)
@@ -583,13 +753,65 @@ def gen_table(rng, quick, n=None):
     return c
 
 
+def gen_masked_table(rng, k):
+    """catalogues with EMPTY coordinate cells (masked columns) next to literal NaN, with regions that
+    cover the position obtained by putting 0 (or the hidden value) in place of the missing coordinate:
+    (0, 0), RA = 0, the equator.  Entries x input formats are enumerated (k), not sampled."""
+    combos = [('table', None, None), ('catalog', 'csv', 'csv'), ('catalog', 'tab', 'csv'), ('catalog', 'fits', 'fits'),
+              ('catalog', 'xml', 'fits'), ('cli', 'csv', 'fits'), ('table', None, None), ('catalog', 'tab', 'fits'),
+              ('catalog', 'csv', 'csv'), ('cli', 'tab', 'csv'), ('catalog', 'xml', 'csv'), ('catalog', 'fits', 'csv')]
+    entry, fmt, ofmt = combos[k % len(combos)]
+    kind = ['origin', 'ra0', 'equator'][(k // 2) % 3]
+    depth = rng.choice([6, 8])
+    r = rng.uniform(3, 8)
+    if kind == 'origin':
+        cra, cdec = rng.choice([0.0, 0.4, 359.7]), rng.uniform(-0.5, 0.5)
+    elif kind == 'ra0':
+        cra, cdec = rng.choice([0.0, 359.5, 0.8]), rng.uniform(-60, 60)
+    else:
+        cra, cdec = rng.uniform(5, 355), rng.uniform(-0.8, 0.8)
+    rows = []
+    for _ in range(rng.randint(6, 14)):
+        t = rng.random()
+        a = (cra + rng.uniform(-0.6, 0.6) * r) % 360.0
+        d = max(-89.0, min(89.0, cdec + rng.uniform(-0.6, 0.6) * r))
+        if t < 0.2:
+            rows.append([None, d])                  # no RA; (0, d) is inside for origin / ra0
+        elif t < 0.4:
+            rows.append([a, None])                  # no Dec; (a, 0) is inside for origin / equator
+        elif t < 0.5:
+            rows.append([None, None])
+        elif t < 0.6:
+            rows.append([float('nan'), d] if rng.random() < 0.5 else [a, float('nan')])
+        elif t < 0.8:
+            rows.append([a, d])                     # inside
+        else:
+            rows.append([(cra + 180 + rng.uniform(-40, 40)) % 360, rng.uniform(-80, 80)])
+    names = rng.choice([['ra', 'dec'], ['RAJ2000', 'DEJ2000'], ['lon', 'lat']])
+    return dict(kind='table', region=dict(depth=depth, circles=[[cra, cdec, r]], polys=[]), coords=rows, names=names,
+                negate=bool(k % 2), unit=None, f32=False, colorder=rng.choice(['first', 'last', 'mixed']),
+                entry=entry, fmt=fmt, ofmt=ofmt, hidden=('inside' if (entry == 'table' and k % 4 >= 2) else 'zero'))
+
+
 def make_table(c):
     from astropy.table import Table, Column
+    from astropy.table import MaskedColumn
     n = len(c['coords'])
-    co = np.array(c['coords'], dtype=float).reshape(n, 2)
     dt = np.float32 if c.get('f32') else np.float64
-    ra = Column(co[:, 0].astype(dt), name=c['names'][0], unit=c.get('unit'))
-    dec = Column(co[:, 1].astype(dt), name=c['names'][1], unit=c.get('unit'))
+    # a coordinate given as None is an EMPTY cell: a masked element.  What is stored underneath the
+    # mask is the caller's business: 0.0 (what the text readers leave there) or a position inside the region
+    hid = [0.0, 0.0]
+    if c.get('hidden') == 'inside' and c['region']['circles']:
+        hid = [c['region']['circles'][0][0], c['region']['circles'][0][1]]
+    msk = np.array([[v is None for v in row] for row in c['coords']], dtype=bool).reshape(n, 2)
+    co = np.array([[hid[k] if v is None else v for k, v in enumerate(row)] for row in c['coords']],
+                  dtype=float).reshape(n, 2)
+    if msk.any():
+        ra = MaskedColumn(co[:, 0].astype(dt), mask=msk[:, 0], name=c['names'][0], unit=c.get('unit'))
+        dec = MaskedColumn(co[:, 1].astype(dt), mask=msk[:, 1], name=c['names'][1], unit=c.get('unit'))
+    else:
+        ra = Column(co[:, 0].astype(dt), name=c['names'][0], unit=c.get('unit'))
+        dec = Column(co[:, 1].astype(dt), name=c['names'][1], unit=c.get('unit'))
     ids = Column(np.arange(n, dtype=np.int64) * 7 + 3, name='id')
     flux = Column(np.arange(n, dtype=np.float64) * 0.37 - 1.0, name='flux')
     tag = Column(np.array(['s%04d' % (k * 13 % 997) for k in range(n)], dtype='U5'), name='tag')
@@ -600,8 +822,9 @@ def make_table(c):
 def table_codes(c, tab, region):
     """codes from the coordinate values the implementation is handed (so float32 / file round trips count)"""
     pixset = pixel_set(region)
-    ra = np.array(tab[c['names'][0]], dtype=float)
-    dec = np.array(tab[c['names'][1]], dtype=float)
+    # an empty / masked cell is an undefined coordinate, whatever is stored under the mask
+    ra = np.ma.filled(np.ma.asarray(tab[c['names'][0]]).astype(float), np.nan)
+    dec = np.ma.filled(np.ma.asarray(tab[c['names'][1]]).astype(float), np.nan)
     fin, mem = membership(pixset, c['region']['depth'], ra, dec)
     # float32 coordinate columns are converted to radians in float32 by the implementation (1e-5 deg)
     eps = 1e-4 if c.get('f32') else 1e-9
@@ -647,12 +870,15 @@ def run_table_impl(ctx, c, region):
     from AegeanTools.catalogs import load_table
     d = ctx.tmpdir()
     tag = hashlib.sha1(json.dumps(c, sort_keys=True).encode()).hexdigest()[:12]
-    infile, outfile, regfile = (os.path.join(d, f'{tag}_{s}') for s in ('in.' + c['fmt'], 'out.' + c['fmt'], 'reg.mim'))
+    ofmt = c.get('ofmt') or (c['fmt'] if c['fmt'] in ('fits', 'csv') else 'csv')
+    infile, outfile, regfile = (os.path.join(d, f'{tag}_{s}') for s in ('in.' + c['fmt'], 'out.' + ofmt, 'reg.mim'))
     try:
         with warnings.catch_warnings():
             warnings.simplefilter('ignore')
             if c['fmt'] == 'xml':
                 tab.write(infile, format='votable', overwrite=True)
+            elif c['fmt'] == 'tab':
+                tab.write(infile, format='ascii.tab', overwrite=True)
             else:
                 tab.write(infile, overwrite=True)
             seen = load_table(infile)           # what the implementation will read
@@ -730,6 +956,7 @@ def eval_tables(ctx, cases, record=True, use_lean=True, shrink=True):
                 wrong = sorted(set(want) ^ set(got))
                 k = wrong[0] if wrong else None
                 nanrow = bool(k is not None and k >= 0 and codes[k] == 'n')
+                sig = dict(sig, empty_cell_row=bool(nanrow and k < len(c['coords']) and None in c['coords'][k]))
                 detail = (f"rows kept {got[:20]} but exactly the rows {want[:20]} must be kept (negate={c['negate']})"
                           + (f"; row {k} has coordinates {c['coords'][k]} ({'undefined' if nanrow else 'inside' if codes[k] == '1' else 'outside'})"
                              if k is not None and k >= 0 else "; a surviving row was altered or columns changed"))
@@ -745,6 +972,8 @@ def eval_tables(ctx, cases, record=True, use_lean=True, shrink=True):
                 ctx.count('table-empty')
             if 'n' in codes:
                 ctx.count('table-with-undefined-coordinates')
+            if any(None in r for r in c['coords']):
+                ctx.count('table-with-empty-coordinate-cells' + (f"/{c['fmt']}" if c['fmt'] else '/in-memory'))
             if c['names'] != ['ra', 'dec']:
                 ctx.count('table-renamed-columns')
             ctx.case(dict(kind='table', rows=len(codes), codes=codes[:40], names=c['names'], negate=c['negate'],
@@ -820,6 +1049,9 @@ def run(ctx):
     corp = corpus_cases()
     eval_images(ctx, [c for c in corp if c['kind'] == 'image'])
     eval_tables(ctx, [c for c in corp if c['kind'] == 'table'])
+    for h in corp:
+        if h['kind'] == 'history':
+            eval_history(ctx, h)
     n_img = 70 if ctx.quick else 1800
     n_small = 30 if ctx.quick else 600
     n_line = 6 if ctx.quick else 100
@@ -831,6 +1063,9 @@ def run(ctx):
         eval_images(ctx, imgs[k:k + 40])
     tabs = [gen_table(rng, ctx.quick) for _ in range(n_tab)]
     eval_tables(ctx, tabs)
+    eval_tables(ctx, [gen_masked_table(rng, k) for k in range(24 if ctx.quick else 300)])
+    for _ in range(8 if ctx.quick else 60):
+        eval_history(ctx, gen_history(rng, ctx.quick))
     if ctx.driver_ok:
         index_probe(ctx)
 
@@ -921,5 +1156,7 @@ def replay(ctx, rec):
         eval_images(ctx, [c])
     elif c.get('kind') == 'table':
         eval_tables(ctx, [c])
+    elif c.get('kind') == 'history':
+        eval_history(ctx, c)
     elif c.get('kind') == 'index':
         index_probe(ctx)
